@@ -68,7 +68,8 @@ InsertS(a, b, p) ==
                !.children = [m \in new |-> [i \in 1..Len(b.children[inv[m]]) |-> map[b.children[inv[m]][i]]]]
                             @@ [@ EXCEPT ![p] = Append(@, map[0])],
                !.meta = [m \in new |-> b.meta[inv[m]]] @@ @,
-               !.nin  = [m \in new |-> b.nin[inv[m]]] @@ @,
+               !.nin  = [m \in new |-> LET offs == {k[4] + 1 : k \in {x \in BagToSet(b.links) : x[3] = inv[m]}} IN
+                                        IF offs = {} THEN 0 ELSE CHOOSE x \in offs : \A y \in offs : x >= y] @@ @,   \* only what the copied links need
                !.nout = [m \in new |-> b.nout[inv[m]]] @@ @,
                !.hcount = [m \in new |-> b.nout[inv[m]]] @@ @,
                !.links = @ (+) [l \in {Link(map[k[1]], k[2], map[k[3]], k[4]) : k \in BagToSet(b.links)} |->
